@@ -1,6 +1,7 @@
 package findings
 
 import (
+	"github.com/aws/aws-sdk-go-v2/aws"
 	"testing"
 
 	"github.com/aws/aws-sdk-go-v2/service/dynamodb"
@@ -19,5 +20,18 @@ func TestC19AbsentKeyIsNotUnprocessed(t *testing.T) {
 	}
 	if n := len(out.UnprocessedKeys["t"].Keys); n != 0 {
 		t.Fatalf("absent key reported as unprocessed (%d unprocessed keys): a retry-until-empty loop never terminates", n)
+	}
+}
+
+// C19.R4 (known finding): a malformed key fails GetItem with a validation error; BatchGetItem reports it as
+// unprocessed and succeeds. Not repaired: the baseline test TestPutAndGetBatchItem requests the key {"t1": …} on a
+// table keyed by id and asserts NoError.
+func TestC19BatchGetRejectsMalformedKey(t *testing.T) {
+	c := newV2(t, "t", "id", "")
+	put(t, c, "t", item{"id": S("a")})
+	_, gerr := c.GetItem(ctx, &dynamodb.GetItemInput{TableName: aws.String("t"), Key: item{"other": S("a")}})
+	_, berr := c.BatchGetItem(ctx, &dynamodb.BatchGetItemInput{RequestItems: map[string]ddbtypes.KeysAndAttributes{"t": {Keys: []map[string]ddbtypes.AttributeValue{{"other": S("a")}}}}})
+	if (gerr == nil) != (berr == nil) {
+		t.Fatalf("GetItem with a malformed key: %v; BatchGetItem with the same key: %v", gerr, berr)
 	}
 }
